@@ -49,7 +49,7 @@ def run(ctx, rep):
     shape = _re.compile(r"^\[\{\}[A-Za-z]+\{\}\]$")
     from rules.shared import fragment_printer, token_templates
     encf, frag = fragment_printer(ctx)
-    ring_tab = ctx.fold.global_value("selfies.grammar_rules", "_PROCESS_RING_CACHE")
+    ring_tab = __import__("rules.symlang", fromlist=["x"]).symbol_table(ctx, "ring")
     ring_call = None
     owner = frag
     for own, node, tmpl, args in token_templates(ctx, frag):
@@ -188,6 +188,19 @@ def run(ctx, rep):
             bname = actual.pop() if len(actual) == 1 else bname
         guards = [n for n in own_nodes(frag.node) if isinstance(n, ast.If) and unparse(n.test).replace(" ", "") == "%s.src<%s.dst" % (bname, bname)
                   and any(isinstance(x, ast.Continue) for x in n.body)]
+        if not guards:
+            # ... or the positive spelling: the ring symbol is produced under a dominating `b.src >= b.dst` (guard facts at the
+            # site that formats the token, or that calls the helper which does)
+            from sa.guards import guard_facts
+            from sa.discharge import noreturn_pred
+            gf = guard_facts(frag, noreturn_pred(ctx, frag))
+            sites_ = [node] if owner is frag else [s_.node for s_ in ctx.cg.sites(frag) if owner in s_.callees]
+            b_ = bname
+            accepted = {"not(%s.src<%s.dst)" % (b_, b_), "%s.src>=%s.dst" % (b_, b_), "%s.src>%s.dst" % (b_, b_), "%s.dst<%s.src" % (b_, b_),
+                        "%s.dst<=%s.src" % (b_, b_), "not(%s.dst>%s.src)" % (b_, b_)}
+            ok_sites = [sn for sn in sites_ if any(fc[0] == "cmp" and fc[1].replace(" ", "") in accepted for fc in gf.get(id(sn), frozenset()))]
+            if sites_ and len(ok_sites) == len(sites_):
+                guards = ok_sites
         if not guards:
             probs.append("the ring symbol is not restricted to the closing end (b.src > b.dst): orientation of the marks is undetermined")
     rep.ob("S2", not probs, pcall, frag, construct="orientation at the encoder's ring symbol", how="first argument = bond from the earlier atom, second = bond from the closing atom",
